@@ -10,11 +10,29 @@
 //!       `sample_values_reservoir_vec`, `sample_values_reservoir`) collected with `collect_seq` and with
 //!       `collect_par(None, Some(n))` for every listed partition count. Keyed outputs are stably sorted by key
 //!       (hash order is not part of the answer); the order inside a sample IS part of the answer.
+//!   `SAMPLEFILT <entry> <k> <seed> <parts> <pred> <rows>` → same answer format
+//!       the same four entry points with `.filter(pred)` between `from_vec` and the sample, so that in parallel
+//!       mode the partitions the combiner sees are skewed or empty (`pred`: `all`, `none`, `lt:<c>`, `ge:<c>`,
+//!       `mod:<m>:<r>`; on the element, or on the value of a keyed row).
 //! The model must reproduce every sample exactly (elements and order).
 //!
 //! Oracle (does not go through the model): size = min(k, n) (per key: min(k, n_key), every key present once),
-//! sub-multiset of the input (per key), same-mode reproducibility (every run is executed twice), and the
-//! documented stability: the sequential sample equals the sample of every partition count.
+//! sub-multiset of the input (per key; with a filter: of the KEPT input), same-mode reproducibility (every run
+//! is executed twice), and the documented stability: the sequential sample equals the sample of every
+//! partition count. A cross-mode difference is attributed to the known finding's signatures ONLY where the
+//! restarted random stream can explain it; two consequences that hold in spite of / because of that
+//! mechanism, and the relation between the flattened and the Vec entry points, have signatures of their own,
+//! which are NOT listed as known:
+//!   * `flattened-sample-differs-from-vec-form` — `sample_reservoir` / `sample_values_reservoir` must return the
+//!     rows of the `_vec` form of the same run, flattened in order (Lean: `sampleFlatSeq_eq`, `sampleFlatPar_eq`);
+//!   * `single-partition-run-differs-from-sequential` — a run that the engine executes on ONE partition
+//!     (requested count <= 1, or a source of <= 1 rows) must equal the sequential run
+//!     (Lean: `mode_stable_single_partition_partial`, `keyed_mode_stable_single_partition_partial`, `filter_…`);
+//!   * `sample-differs-from-seq-and-is-not-last-k-at-singleton-partitions` — with at least as many partitions
+//!     as source rows every partition holds <= 1 row and the restarted stream yields exactly the last k (kept)
+//!     inputs, per key (Lean: `samplePar_singleton_partitions`, `sampleKeyedPar_singleton_partitions`,
+//!     `sample(Keyed)FilterPar_singleton_partitions`); a run there that differs from the sequential sample AND
+//!     from that prediction is not the known finding.
 
 use crate::ctx::{Ctx, guarded};
 use ironbeam::collection::LiftableCombiner;
@@ -207,26 +225,58 @@ impl Out {
     }
 }
 
-fn run_entry(e: Entry, k: usize, seed: u64, mode: Option<usize>, xs: &[i64], rows: &[(i64, i64)]) -> Out {
+/// predicate put in front of the sample (`SAMPLEFILT`)
+#[derive(Clone, Copy, PartialEq, Eq, Debug)]
+enum Filt { All, None, Lt(i64), Ge(i64), Mod(i64, i64) }
+impl Filt {
+    fn keep(self, x: i64) -> bool {
+        match self {
+            Filt::All => true,
+            Filt::None => false,
+            Filt::Lt(c) => x < c,
+            Filt::Ge(c) => x >= c,
+            Filt::Mod(m, r) => x.rem_euclid(m) == r,
+        }
+    }
+    fn enc(self) -> String {
+        match self {
+            Filt::All => "all".into(),
+            Filt::None => "none".into(),
+            Filt::Lt(c) => format!("lt:{c}"),
+            Filt::Ge(c) => format!("ge:{c}"),
+            Filt::Mod(m, r) => format!("mod:{m}:{r}"),
+        }
+    }
+}
+
+fn run_entry(e: Entry, k: usize, seed: u64, mode: Option<usize>, filt: Option<Filt>, xs: &[i64], rows: &[(i64, i64)]) -> Out {
     let r = guarded(|| -> anyhow::Result<Out> {
         let p = Pipeline::default();
+        let src = || {
+            let c = from_vec(&p, xs.to_vec());
+            match filt { Some(f) => c.filter(move |x: &i64| f.keep(*x)), None => c }
+        };
+        let ksrc = || {
+            let c = from_vec(&p, rows.to_vec());
+            match filt { Some(f) => c.filter(move |r: &(i64, i64)| f.keep(r.1)), None => c }
+        };
         Ok(match e {
             Entry::GVec => {
-                let c = from_vec(&p, xs.to_vec()).sample_reservoir_vec(k, seed);
+                let c = src().sample_reservoir_vec(k, seed);
                 Out::GVec(match mode { None => c.collect_seq()?, Some(n) => c.collect_par(None, Some(n))? })
             }
             Entry::GFlat => {
-                let c = from_vec(&p, xs.to_vec()).sample_reservoir(k, seed);
+                let c = src().sample_reservoir(k, seed);
                 Out::GFlat(match mode { None => c.collect_seq()?, Some(n) => c.collect_par(None, Some(n))? })
             }
             Entry::KVec => {
-                let c = from_vec(&p, rows.to_vec()).sample_values_reservoir_vec(k, seed);
+                let c = ksrc().sample_values_reservoir_vec(k, seed);
                 let mut v = match mode { None => c.collect_seq()?, Some(n) => c.collect_par(None, Some(n))? };
                 v.sort_by_key(|r| r.0);
                 Out::KVec(v)
             }
             Entry::KFlat => {
-                let c = from_vec(&p, rows.to_vec()).sample_values_reservoir(k, seed);
+                let c = ksrc().sample_values_reservoir(k, seed);
                 let mut v = match mode { None => c.collect_seq()?, Some(n) => c.collect_par(None, Some(n))? };
                 v.sort_by_key(|r| r.0); // stable: the order inside each key's sample is kept
                 Out::KFlat(v)
@@ -279,43 +329,110 @@ fn check_one(cx: &mut Ctx, i: usize, e: Entry, k: usize, label: &str, out: &Out,
     }
 }
 
-fn one_pipe(cx: &mut Ctx, e: Entry, k: usize, seed: u64, parts: &[usize], xs: &[i64], rows: &[(i64, i64)]) {
-    let n = if e.keyed() { rows.len() } else { xs.len() };
+/// the per-key view of an output with empty samples removed (the flattened forms cannot show them)
+fn nonempty(pk: &[(i64, Vec<i64>)]) -> Vec<(i64, Vec<i64>)> {
+    pk.iter().filter(|r| !r.1.is_empty()).cloned().collect()
+}
+
+/// `xs`/`rows` are the SOURCE rows; `filt` (if any) sits between the source and the sample
+fn one_pipe(cx: &mut Ctx, e: Entry, k: usize, seed: u64, parts: &[usize], filt: Option<Filt>, xs: &[i64], rows: &[(i64, i64)]) {
+    let n_src = if e.keyed() { rows.len() } else { xs.len() };
+    // what the sample is taken from
+    let fxs: Vec<i64> = xs.iter().copied().filter(|x| filt.map_or(true, |f| f.keep(*x))).collect();
+    let frows: Vec<(i64, i64)> = rows.iter().copied().filter(|r| filt.map_or(true, |f| f.keep(r.1))).collect();
+    let n = if e.keyed() { frows.len() } else { fxs.len() };
     let data = if e.keyed() { enc_pairs(rows) } else { enc_ints(xs, ",") };
-    let req = format!("SAMPLEPIPE {} {k} {seed} {} {data}", e.name(), enc_usizes(parts));
+    let req = match filt {
+        None => format!("SAMPLEPIPE {} {k} {seed} {} {data}", e.name(), enc_usizes(parts)),
+        Some(f) => format!("SAMPLEFILT {} {k} {seed} {} {} {data}", e.name(), enc_usizes(parts), f.enc()),
+    };
     let mut labels: Vec<String> = vec!["seq".into()];
     let mut modes: Vec<Option<usize>> = vec![None];
     for p in parts { labels.push(format!("p{p}")); modes.push(Some(*p)); }
-    let outs: Vec<Out> = modes.iter().map(|m| run_entry(e, k, seed, *m, xs, rows)).collect();
-    let again: Vec<Out> = modes.iter().map(|m| run_entry(e, k, seed, *m, xs, rows)).collect();
+    let outs: Vec<Out> = modes.iter().map(|m| run_entry(e, k, seed, *m, filt, xs, rows)).collect();
+    let again: Vec<Out> = modes.iter().map(|m| run_entry(e, k, seed, *m, filt, xs, rows)).collect();
     let ans = labels.iter().zip(&outs).map(|(l, o)| format!("{l}={}", o.enc())).collect::<Vec<_>>().join(" ");
     let i = cx.case(req, ans, n >= 2 && k >= 1 && !parts.is_empty());
-    cx.count(&format!("pipe:{}", e.name()));
-    cx.count(&format!("pipe:{}", k_class(k, n)));
-    cx.count(&format!("pipe:n:{}", match n { 0 => "0", 1 => "1", 2..=4 => "2-4", 5..=15 => "5-15", 16..=40 => "16-40", _ => "41+" }));
+    let tag = if filt.is_some() { "filt" } else { "pipe" };
+    cx.count(&format!("{tag}:{}", e.name()));
+    cx.count(&format!("{tag}:{}", k_class(k, n)));
+    cx.count(&format!("{tag}:n:{}", match n { 0 => "0", 1 => "1", 2..=4 => "2-4", 5..=15 => "5-15", 16..=40 => "16-40", _ => "41+" }));
+    if let Some(f) = filt {
+        cx.count(&format!("filt:pred:{}", match f { Filt::All => "all", Filt::None => "none", Filt::Lt(_) => "lt", Filt::Ge(_) => "ge", Filt::Mod(..) => "mod" }));
+        cx.count(&format!("filt:kept:{}", if n == n_src { "all" } else if n == 0 { "nothing" } else if 2 * n >= n_src { ">=half" } else { "<half" }));
+        // shape of the partitions the combiner sees (global path; reference split = ceil(len/parts) chunks)
+        if !e.keyed() {
+            for p in parts {
+                let pc = (*p).max(1).min(n_src.max(1));
+                if pc <= 1 || n_src <= 1 { continue; }
+                let sz = n_src.div_ceil(pc);
+                let sizes: Vec<usize> = xs.chunks(sz).map(|c| c.iter().filter(|x| f.keep(**x)).count()).collect();
+                let empty = sizes.iter().filter(|s| **s == 0).count();
+                let (mn, mx) = (sizes.iter().min().copied().unwrap_or(0), sizes.iter().max().copied().unwrap_or(0));
+                cx.count(if empty == sizes.len() { "filt:partitions:all-empty" } else if empty > 0 { "filt:partitions:some-empty" } else if mx > mn + 1 { "filt:partitions:skewed" } else { "filt:partitions:even" });
+                if sizes.first() == Some(&0) && empty < sizes.len() { cx.count("filt:partitions:first-empty"); }
+            }
+        }
+    }
     for (j, o) in outs.iter().enumerate() {
-        check_one(cx, i, e, k, &labels[j], o, xs, rows);
+        check_one(cx, i, e, k, &labels[j], o, &fxs, &frows);
         if *o != again[j] {
             cx.oracle_fail(i, "sample-not-reproducible", format!("{} {}: {} then {}", e.name(), labels[j], o.enc(), again[j].enc()));
         }
     }
-    // evidence only (Lean: samplePar_singleton_partitions): with partitions >= n the global sample is the last k inputs
-    if !e.keyed() {
+    // the flattened entry points return exactly the rows of the Vec form of the same run, flattened in order
+    // (Lean: sampleFlatSeq_eq / sampleFlatPar_eq; flattenKeyed is the keyed flattening by definition)
+    if matches!(e, Entry::GFlat | Entry::KFlat) {
+        let ve = if e == Entry::GFlat { Entry::GVec } else { Entry::KVec };
         for (j, m) in modes.iter().enumerate() {
-            if let Some(p) = m {
-                if *p >= n {
-                    let last_k: Vec<i64> = xs[n - k.min(n)..].to_vec();
-                    let same = outs[j].per_key().map(|pk| pk.len() == 1 && pk[0].1 == last_k).unwrap_or(false);
-                    cx.count(if same { "pipe:parts>=n:sample=last-k" } else { "pipe:parts>=n:sample!=last-k" });
-                }
+            let vo = run_entry(ve, k, seed, *m, filt, xs, rows);
+            let same = match (&outs[j], &vo) {
+                (Out::GFlat(f), Out::GVec(rows)) => *f == rows.iter().flatten().copied().collect::<Vec<i64>>(),
+                (Out::KFlat(f), Out::KVec(rows)) => *f == rows.iter().flat_map(|(kk, vs)| vs.iter().map(|v| (*kk, *v))).collect::<Vec<(i64, i64)>>(),
+                (Out::Fail(a), Out::Fail(b)) => a == b,
+                _ => false,
+            };
+            cx.count("pipe:flat-vs-vec-compared");
+            if !same {
+                cx.oracle_fail(i, "flattened-sample-differs-from-vec-form", format!("{} {}: {} but {} gives {}", e.name(), labels[j], outs[j].enc(), ve.name(), vo.enc()));
             }
         }
     }
+    // what the restarted stream yields when every partition holds <= 1 source row: the last k (kept) values,
+    // per key (global entry points: the single key 0)
+    let mut groups: BTreeMap<i64, Vec<i64>> = BTreeMap::new();
+    if e.keyed() {
+        for (kk, v) in &frows { groups.entry(*kk).or_default().push(*v); }
+    } else {
+        groups.insert(0, fxs.clone());
+    }
+    let last_k: Vec<(i64, Vec<i64>)> = groups.iter().map(|(kk, vs)| (*kk, vs[vs.len() - k.min(vs.len())..].to_vec())).collect();
     // documented: identical for sequential and parallel execution and for every partitioning
-    // (report the first differing partition count only)
     let seq_pk = outs[0].per_key();
+    let mut known_fail: Option<(&str, String)> = None;
     for j in 1..outs.len() {
+        let p = modes[j].unwrap_or(1);
+        let single = p <= 1 || n_src <= 1;
+        let singletons = !single && p >= n_src;
+        let is_last_k = outs[j].per_key().map(|pk| nonempty(&pk) == nonempty(&last_k)).unwrap_or(false);
+        if singletons {
+            cx.count(if is_last_k { "pipe:parts>=n:sample=last-k" } else { "pipe:parts>=n:sample!=last-k" });
+        }
+        if single { cx.count("pipe:single-partition-run"); }
         if outs[j] == outs[0] { continue; }
+        cx.count("pipe:seq!=par");
+        if single {
+            // NOT the known finding: one partition runs the very same fold as sequential mode
+            cx.oracle_fail(i, "single-partition-run-differs-from-sequential", format!("{} k={k} seed={seed} filter={}: seq {} but {} (one partition: requested {p}, {n_src} source rows) {}", e.name(), filt.map_or("-".into(), Filt::enc), outs[0].enc(), labels[j], outs[j].enc()));
+            continue;
+        }
+        if singletons && !is_last_k {
+            // NOT the known finding: the restarted stream yields exactly the last k inputs here
+            cx.oracle_fail(i, "sample-differs-from-seq-and-is-not-last-k-at-singleton-partitions", format!("{} k={k} seed={seed} filter={}: {} partitions for {n_src} source rows give {} (sequential {}), the restarted-stream mechanism of the known finding predicts {}", e.name(), filt.map_or("-".into(), Filt::enc), p, outs[j].enc(), outs[0].enc(), enc_groups(&nonempty(&last_k))));
+            continue;
+        }
+        // the known finding (reported once per request: the first differing partition count)
+        if known_fail.is_some() { continue; }
         let same_elems = match (&seq_pk, outs[j].per_key()) {
             (Some(a), Some(b)) => {
                 a.len() == b.len() && a.iter().zip(b.iter()).all(|(x, y)| x.0 == y.0 && same_multiset(&x.1, &y.1))
@@ -323,10 +440,10 @@ fn one_pipe(cx: &mut Ctx, e: Entry, k: usize, seed: u64, parts: &[usize], xs: &[
             _ => false,
         };
         let sig = if same_elems { "sample-order-differs-between-seq-and-par" } else { "sample-differs-between-seq-and-par" };
-        cx.oracle_fail(i, sig, format!("{} k={k} seed={seed}: seq {} but {} {}", e.name(), outs[0].enc(), labels[j], outs[j].enc()));
-        cx.count("pipe:seq!=par");
-        break;
+        known_fail = Some((sig, format!("{} k={k} seed={seed}: seq {} but {} {}", e.name(), outs[0].enc(), labels[j], outs[j].enc())));
     }
+    // emitted after the dedicated signatures so that a replay names the more specific failure first
+    if let Some((sig, detail)) = known_fail { cx.oracle_fail(i, sig, detail); }
 }
 
 /* ------------------------------------------------------------------ generators */
@@ -426,15 +543,27 @@ fn cut_sizes(vals: &[i64], sizes: &[usize]) -> Vec<Vec<i64>> {
     out
 }
 fn keyed_rows(cx: &mut Ctx, vals: &[i64]) -> Vec<(i64, i64)> {
-    let nk = *cx.rng.pick(&[1i64, 2, 3, 5]);
+    let nk = *cx.rng.pick(&[1i64, 2, 3, 5, 12, 40]);
     let skew = cx.rng.chance(1, 3);
     vals.iter().map(|v| {
         let k = if skew && cx.rng.chance(2, 3) { 0 } else { cx.rng.range(0, nk - 1) };
         (k, *v)
     }).collect()
 }
+/// a predicate for the filter in front of the sample; thresholds inside and at the ends of the value range
+fn gen_filt(cx: &mut Ctx, vals: &[i64]) -> Filt {
+    let lo = vals.iter().min().copied().unwrap_or(0);
+    let hi = vals.iter().max().copied().unwrap_or(0);
+    match cx.rng.below(10) {
+        0 => Filt::All,
+        1 => Filt::None,
+        2 | 3 | 4 => Filt::Lt(cx.rng.range(lo - 1, hi + 1)),
+        5 | 6 => Filt::Ge(cx.rng.range(lo - 1, hi + 1)),
+        _ => { let m = cx.rng.range(2, 4); Filt::Mod(m, cx.rng.range(0, m - 1)) }
+    }
+}
 fn partition_choices(n: usize) -> Vec<usize> {
-    let mut v = vec![1, 2, 3, 4, n.saturating_sub(1).max(1), n.max(1), n + 1, 7, 13, 64];
+    let mut v = vec![0, 1, 2, 3, 4, n.saturating_sub(1).max(1), n.max(1), n + 1, 7, 13, 64];
     v.sort();
     v.dedup();
     v
@@ -445,12 +574,20 @@ pub fn run(cx: &mut Ctx) {
     let w: Vec<i64> = (0..20).collect();
     let wk: Vec<(i64, i64)> = w.iter().map(|v| (v % 2, *v)).collect();
     for e in ENTRIES {
-        one_pipe(cx, e, 5, 42, &[1, 2, 3, 4, 20, 21], &w, &wk);
-        one_pipe(cx, e, 0, 42, &[1, 3], &w, &wk);
-        one_pipe(cx, e, 20, 42, &[1, 3], &w, &wk);
-        one_pipe(cx, e, 21, 42, &[1, 3], &w, &wk);
-        one_pipe(cx, e, 3, 7, &[1, 2], &[], &[]);
-        one_pipe(cx, e, usize::MAX, u64::MAX, &[1, 3, 64], &w, &wk); // largest k and seed
+        one_pipe(cx, e, 5, 42, &[0, 1, 2, 3, 4, 20, 21], None, &w, &wk);
+        one_pipe(cx, e, 0, 42, &[1, 3], None, &w, &wk);
+        one_pipe(cx, e, 20, 42, &[1, 3], None, &w, &wk);
+        one_pipe(cx, e, 21, 42, &[1, 3], None, &w, &wk);
+        one_pipe(cx, e, 3, 7, &[0, 1, 2], None, &[], &[]);
+        one_pipe(cx, e, usize::MAX, u64::MAX, &[1, 3, 64], None, &w, &wk); // largest k and seed
+        // a filter in front of the sample: even thinning, only the first / only the last partitions keep
+        // anything, nothing kept, everything kept
+        for f in [Filt::Mod(2, 0), Filt::Lt(5), Filt::Ge(15), Filt::Lt(12), Filt::None, Filt::All] {
+            one_pipe(cx, e, 5, 42, &[0, 1, 2, 3, 4, 19, 20, 21], Some(f), &w, &wk);
+        }
+        one_pipe(cx, e, 3, 7, &[0, 1, 2], Some(Filt::All), &[], &[]);
+        one_pipe(cx, e, 1, 42, &[1, 2, 3, 6, 7], Some(Filt::Mod(2, 0)), &[0, 1, 2, 3, 4, 5], &[(0, 0), (1, 5), (0, 1), (1, 6), (0, 2), (1, 7)]); // Lean: filter_seq_ne_par
+        one_pipe(cx, e, 1, 42, &[1, 2, 3, 6, 7], None, &[0, 1, 2], &[(0, 0), (1, 5), (0, 1), (1, 6), (0, 2), (1, 7)]); // Lean: seq_ne_par, keyed_seq_ne_par
     }
     one_reservoir(cx, usize::MAX, 0, &cut_sizes(&w, &[7, 7, 6]), &left_comb(3));
     one_reservoir(cx, 5, 42, &[w.clone()], &Shape::Leaf(0, false));
@@ -489,17 +626,38 @@ pub fn run(cx: &mut Ctx) {
     for n in 0..=pmax {
         let vals: Vec<i64> = (0..n as i64).map(|i| (i * 5 + 1) % 4).collect();
         let rows: Vec<(i64, i64)> = vals.iter().enumerate().map(|(i, v)| ((i as i64 * 3 + 1) % 2, *v)).collect();
-        let parts: Vec<usize> = (1..=n + 2).collect();
+        let parts: Vec<usize> = (0..=n + 2).collect();
         for k in 0..=n + 1 {
             for seed in [0u64, 1, 42] {
                 for e in ENTRIES {
-                    one_pipe(cx, e, k, seed, &parts, &vals, &rows);
+                    one_pipe(cx, e, k, seed, &parts, None, &vals, &rows);
                     p_ex += 1;
                 }
             }
         }
     }
-    cx.exhaustive_blocks.push(format!("pipelines: n <= {pmax} x k in 0..=n+1 x seeds {{0,1,42}} x 4 entry points x seq + partitions 1..=n+2 ({p_ex} requests)"));
+    cx.exhaustive_blocks.push(format!("pipelines: n <= {pmax} x k in 0..=n+1 x seeds {{0,1,42}} x 4 entry points x seq + partitions 0..=n+2 ({p_ex} requests)"));
+    // (2c) a filter in front of the sample: every n <= N (values = positions, so `lt`/`ge` keep a prefix / a
+    //      suffix and whole partitions become empty), every prefix, every suffix, three residue classes,
+    //      every k in 0..=n+1, all four entry points, seq + every partition count 0..=n+2
+    let fmax = cx.budget(4, 8);
+    let mut f_ex = 0usize;
+    for n in 0..=fmax {
+        let vals: Vec<i64> = (0..n as i64).collect();
+        let rows: Vec<(i64, i64)> = vals.iter().map(|v| ((v * 3 + 1) % 2, *v)).collect();
+        let parts: Vec<usize> = (0..=n + 2).collect();
+        let mut filts: Vec<Filt> = vec![Filt::Mod(2, 0), Filt::Mod(2, 1), Filt::Mod(3, 1)];
+        for c in 0..=n as i64 { filts.push(Filt::Lt(c)); filts.push(Filt::Ge(c)); }
+        for f in &filts {
+            for k in 0..=n + 1 {
+                for e in ENTRIES {
+                    one_pipe(cx, e, k, 42, &parts, Some(*f), &vals, &rows);
+                    f_ex += 1;
+                }
+            }
+        }
+    }
+    cx.exhaustive_blocks.push(format!("pipelines with filter before the sample: n <= {fmax} (values = positions) x every prefix (lt) / suffix (ge) / residue classes mod 2, mod 3 x k in 0..=n+1 x seed 42 x 4 entry points x seq + partitions 0..=n+2 ({f_ex} requests)"));
 
     /* (3) random: inputs <= 60 with duplicates */
     let rounds = cx.budget(4000, 80000);
@@ -531,7 +689,17 @@ pub fn run(cx: &mut Ctx) {
         let mut ps: Vec<usize> = (0..3).map(|_| *cx.rng.pick(&choices)).collect();
         ps.sort();
         ps.dedup();
+        // every other round: a filter in front of the sample; half of those on ascending values, so that the
+        // kept rows are a prefix / suffix and the partitions are empty or skewed
+        let filt = if (r / 4) % 2 == 1 { Some(gen_filt(cx, &vals)) } else { None };
+        let mut vals = vals;
+        if filt.is_some() && cx.rng.chance(1, 2) { vals.sort(); }
         let rows = keyed_rows(cx, &vals);
-        one_pipe(cx, e, k, seed, &ps, &vals, &rows);
+        // k relative to the number of KEPT rows half of the time
+        let k = match filt {
+            Some(f) if cx.rng.chance(1, 2) => { let kept = vals.iter().filter(|x| f.keep(**x)).count(); gen_k(cx, kept) }
+            _ => k,
+        };
+        one_pipe(cx, e, k, seed, &ps, filt, &vals, &rows);
     }
 }
